@@ -283,6 +283,12 @@ def a_plant(draw, cx, name, fuel=None):
          "running_costs": draw(st.sampled_from([0.0, 0.5])) / cx.dt0,
          "min_runtime": draw(st.sampled_from([0, 0, 1.5, 2.5])) * cx.dt0,
          "wacc": 0.0}
+    if draw(st.integers(0, 2)) == 0:
+        # ramp limit, and in half of these a unit that was running before the horizon (rates per main time unit)
+        a["ramp"] = maxc * draw(st.sampled_from([0.25, 0.5, 1.0]))
+        if draw(st.booleans()):
+            a["time_already_running"] = 1.5 * cx.dt0
+            a["last_dispatch"] = draw(st.sampled_from([minc, maxc]))
     if fuel and others:
         a["nodes"] = [node, draw(st.sampled_from(others))]
         a["fuel_efficiency"] = draw(st.sampled_from([1.0, 0.5, 0.75]))
